@@ -32,6 +32,7 @@ class Spec:
   follow_errors = False
   keep_backref_order = True
   soft_clauses = ()      # reported, but the state is still expanded
+  name_unnamed = ()      # identifiers given to unnamed lines (op "nameit")
 
   def __init__(self, **kw):
     for k, v in kw.items():
@@ -106,6 +107,12 @@ def apply_op(g, op, env):
     l.delete(op[2])
   elif k == "plq":
     g.process_line_queue()
+  elif k == "nameit":
+    l = find_by_text(g, op[1])
+    if observe.rt_of(l) in ("L", "C"):
+      l.set("ID", op[2])
+    else:
+      l.name = op[2]
   elif k == "setfield":
     l = find_by_text(g, op[1])
     l.set(op[2], op[3])
@@ -132,6 +139,10 @@ def op_to_py(op):
     return "g.try_get_line({!r}).name = {!r}".format(op[1], op[2])
   if k == "plq":
     return "g.process_line_queue()"
+  if k == "nameit":
+    return ("(lambda l: l.set('ID', {1!r}) if l.record_type in 'LC' else "
+            "setattr(l, 'name', {1!r}))([l for l in g.lines if str(l) == {0!r}][0])"
+            ).format(op[1], op[2])
   if k == "setfield":
     return "[l for l in g.lines if str(l) == {!r}][0].set({!r}, {!r})".format(
         op[1], op[2], op[3])
@@ -182,6 +193,10 @@ def enabled_ops(g, spec):
     for tgt in spec.rename_targets:
       if tgt != n:
         ops.append(("rename", n, tgt))
+  for l in unnamed:
+    if observe.rt_of(l) in ("L", "C", "E", "G", "O", "U") and not observe.is_virtual(l):
+      for nm in spec.name_unnamed:
+        ops.append(("nameit", observe.safe_str(l), nm))
   if spec.tag_ops:
     for l in lines:
       if observe.rt_of(l) in ("H", "#") or observe.is_virtual(l):
